@@ -46,6 +46,7 @@ Holds(e, S, R, status) ==
     [] e.op = "mul" -> IF e.floor THEN Near(v, Max(0, MulDiv(S[e.args[1]], e.num, e.den)), e.tol + 1)
                        ELSE Near(v, MulDiv(S[e.args[1]], e.num, e.den), e.tol + 1)
     [] e.op = "mulk" -> v = S[e.args[1]] * e.k            \* the count is held in hundredths like every line
+    [] e.op = "mulcnt" -> Near(v, MulDiv(S[e.args[2]], S[e.args[1]], 100), e.tol)       \* count (in hundredths) x amount
     [] e.op = "mull" -> Near(v, MulDiv(S[e.args[1]], R[e.args[2]], 100000), e.tol + 1)
     [] e.op = "min" -> Near(v, Min(S[e.args[1]], S[e.args[2]]), e.tol)
     [] e.op = "max" -> Near(v, Max(S[e.args[1]], S[e.args[2]]), e.tol)
